@@ -46,9 +46,7 @@ func NewProvider(fs filesystem.Filespace, helpersPath, layoutPath, viewPath, ext
 
 // Base return base template (with loaded helpers)
 func (provider *Provider) Base() (*template.Template, error) {
-	if provider.baseTemplate != nil {
-		return provider.baseTemplate, nil
-	}
+	// the cached template is read under the mutex (see base)
 	return provider.base()
 }
 
@@ -83,10 +81,8 @@ func (provider *Provider) Layout(name string) (*template.Template, error) {
 	if name == "" {
 		name = goathtml.DefaultLayout
 	}
-	tmpl, ok := provider.layouts[name]
-	if ok {
-		return tmpl, nil
-	}
+	// the cache map is read under the mutex (see layout): an unlocked read
+	// concurrent with the first store crashes the process
 	return provider.layout(name)
 }
 
@@ -128,7 +124,6 @@ func (provider *Provider) layout(name string) (layoutTemplate *template.Template
 // View return template for view by name. It contains selected layout definitions and helpers
 func (provider *Provider) View(layoutName, viewName string) (tmpl *template.Template, err error) {
 	var (
-		ok  bool
 		key string
 	)
 	if layoutName == "" {
@@ -138,10 +133,7 @@ func (provider *Provider) View(layoutName, viewName string) (tmpl *template.Temp
 		return nil, goaterr.Errorf("goathtml.Provider: A view name is required")
 	}
 	key = layoutName + ":" + viewName
-	// check without lock (preformence feature)
-	if tmpl, ok = provider.views[key]; ok {
-		return tmpl, nil
-	}
+	// the cache map is read under the mutex (see view)
 	return provider.view(layoutName, viewName, key)
 }
 
